@@ -29,7 +29,7 @@ RULE = (
     "dep5 = header (Format, optional Upstream-Name / Upstream-Contact (1..2) / Source / Disclaimer / Comment) + 1..5 Files paragraphs, each 1..3 patterns "
     "over {a b . / * ? \\* \\? \\\\} (ALL patterns of length <= 3 in quick / <= 4 in thorough as single-paragraph projects, random longer ones), 1..3 "
     "copyright lines, licence expression (optionally with a licence text body), optional Comment.  Tree: for every pattern several paths obtained by "
-    "instantiating its wildcards (also with '/' and the empty string) and by one-character mutations, plus files with their own header (aggregation).  "
+    "instantiating its wildcards (also with '/' and the empty string) and by one-character mutations, plus files with their own header (aggregation), whose notice is sometimes spelled exactly like a Copyright line of the paragraphs.  "
     "Oracle: per-file copyrights / expressions of lint --json identical before and after convert-dep5 (source .reuse/dep5 -> REUSE.toml, dep5 -> "
     "reuse-toml), same exit status; snapshot delta = {-dep5, +REUSE.toml}; no dep5 => exit 2, nothing changes; failing write => dep5 kept.  "
     "Non-trivial = a pattern with a wildcard or escape and a tree with files on both sides of it; distinct by dep5 text + tree."
@@ -113,7 +113,9 @@ def dep5_case(draw):
               "source": draw(st.sampled_from([None, "https://example.org/src"])), "disclaimer": draw(st.sampled_from([None, "Not official."])),
               "comment": draw(st.sampled_from([None, "Header comment."]))}
     extra = draw(st.lists(st.sampled_from(["src/own.py", "own.c", "a/own.txt"]), max_size=2, unique=True))
-    return {"paras": paras, "paths": sorted(paths), "header": header, "own": extra}
+    # the in-file notice of the files with their own header is sometimes spelled exactly like a Copyright line of the paragraphs
+    own_cop = draw(st.sampled_from([None, None, "Copyright (C) 1999 Third, Inc.", "© Fourth <f@example.org>"]))
+    return {"paras": paras, "paths": sorted(paths), "header": header, "own": extra, "own_cop": own_cop}
 
 
 def render_dep5(c):
@@ -205,7 +207,7 @@ def check(ctx, c):
         files[p] = "content\n"
     for p in c["own"]:
         if valid_path(p) and not any(q == p or q.startswith(p + "/") or p.startswith(q + "/") for q in paths):
-            files[p] = P.header_text("python" if p.endswith(".py") else "c" if p.endswith(".c") else "none", ["SPDX-FileCopyrightText: 2020 Own Holder"], ["ISC"])
+            files[p] = P.header_text("python" if p.endswith(".py") else "c" if p.endswith(".c") else "none", [c.get("own_cop") or "SPDX-FileCopyrightText: 2020 Own Holder"], ["ISC"])
     if len(files) == 1:
         files["a"] = "content\n"
     root = ctx.fresh_dir()
